@@ -6,11 +6,14 @@
 //!   apx <kind> <npts> <npts*dim words> <thr>
 //!        -> <count> <count*dim words> <calls> <calls*(dim words + decision bit)>
 //!        halt = |err| sum(err_i^2) < thr*thr, and it logs every call (argument and answer)
+//!   rays <kind> <n> <n*(dim point words + dim direction words)> <t> -> eval(dim) tangent(dim)
+//!        BezierSpline::from_rays (panics for fewer than two rays)
 //!   sstep <t>                              -> smoothstep(t) smootherstep(t)
 use std::cell::RefCell;
 
 use re::math::angle::{rads, Angle};
 use re::math::color::{rgb, rgba, Color3f, Color4f};
+use re::geom::Ray;
 use re::math::spline::{smootherstep, smoothstep, BezierSpline, CubicBezier};
 use re::math::{pt2, pt3, vec2, vec3, Affine, Linear, Point2, Point3, Vec2, Vec3};
 
@@ -133,6 +136,17 @@ where
     format!("{} {}", hexes(&s.eval(t).to_c()), hexes(&s.tangent(t).to_c()))
 }
 
+fn run_rays<T>(w: &[f32], dim: usize, t: f32) -> String
+where
+    T: Affine + Clone + Comp,
+    T::Diff: Linear<Scalar = f32> + Clone + Comp,
+{
+    let rays: Vec<Ray<T, T::Diff>> =
+        w.chunks(2 * dim).map(|c| Ray(T::from_c(&c[..dim]), <T::Diff>::from_c(&c[dim..]))).collect();
+    let s = BezierSpline::from_rays(rays);
+    format!("{} {}", hexes(&s.eval(t).to_c()), hexes(&s.tangent(t).to_c()))
+}
+
 fn run_apx<T>(w: &[f32], dim: usize, thr: f32) -> String
 where
     T: Affine + Clone + Comp,
@@ -197,6 +211,13 @@ pub fn run(t: &[&str]) -> String {
             } else {
                 dispatch!(run_apx, t[1], &w, dim, x)
             }
+        }
+        "rays" => {
+            let dim = dim_of(t[1]);
+            let n = pint(t[2]) as usize;
+            let w: Vec<f32> = t[3..3 + 2 * n * dim].iter().map(|s| pf32(s)).collect();
+            let x = pf32(t[3 + 2 * n * dim]);
+            dispatch!(run_rays, t[1], &w, dim, x)
         }
         "sstep" => {
             let x = pf32(t[1]);
@@ -352,6 +373,15 @@ pub fn gen(rng: &mut Rng, tier: Tier, out: &mut Vec<String>) {
         let w = polygon(rng, n, dim);
         let tail = if w.is_empty() { String::new() } else { format!("{} ", hexes(&w)) };
         out.push(format!("spl {} {} {}{}", k, n, tail, h32(0.5)));
+    }
+    // from_rays: 0..9 rays (0 and 1 must be rejected by new())
+    for i in 0..(if q { 1500 } else { 50_000 }) {
+        let (k, dim) = kind(rng);
+        let n = if i % 50 == 0 { rng.range(0, 2) as usize } else { rng.range(2, 10) as usize };
+        let w = polygon(rng, 2 * n, dim);
+        let t = param(rng, n.max(2) as u32 - 1);
+        let body = if w.is_empty() { String::new() } else { format!("{} ", hexes(&w)) };
+        out.push(format!("rays {} {} {}{}", k, n, body, h32(t)));
     }
     // approximate
     let n_apx = if q { 260 } else { 6000 };
